@@ -6,7 +6,7 @@
    struct, 22/23 = public/private enum, 40.30 / 40.31 = public/private method. *)
 From Coq Require Import List Bool NArith Arith.
 Import ListNotations.
-From Garden Require Import Imports ImportsProps ImportsTie gen.ImportsGen.
+From Garden Require Import Imports ImportsProps ImportsGeneral ImportsTie gen.ImportsGen.
 
 (* Any finite file graph, cycles and self-imports included, with or without the repairs: fuel = number of
    files + 1 is enough (the root file is not in paths_seen when loading starts, so it can be loaded twice). *)
@@ -90,3 +90,85 @@ Proof.
   exact (proj1 cyclic_unqualified_import).
 Qed.
 Print Assumptions unfixed_loader_refuted.
+
+(* ================================================================================================
+   GENERAL theorems: ARBITRARY project (any number of files), ANY import graph (cycles, self-imports,
+   repeated imports, imports of missing files), with and without `as`, for the loader shape regenerated
+   from the current source. Hypotheses: the root file exists, loading returned an environment e (it
+   always terminates: load_terminates), and no file marks one name both public and private
+   (consistent_marks; shown necessary below). Vocabulary (ImportsGeneral.v):
+     hasns e g         file g has a namespace in e, i.e. it was loaded (the root, or reached by imports)
+     exp e g x         x is in the exported_syms of g's namespace;   val e g x   the value bound to x in it
+     pubp proj g x     file g marks x `public` (a public fun, or a variant of a public enum)
+     declared proj g x g declares x (fun or enum variant, any visibility)
+     import_alias proj f t a / import_plain proj f t    f contains `import t as a` / `import t`
+     allowed proj f x  x is a prelude name, or declared by f, or an import alias of f, or public in a file
+                       that f imports without `as`.
+   ================================================================================================ *)
+
+(* (a) After loading, the exported_syms of EVERY loaded file are exactly its public marks. *)
+Theorem exported_iff_public : forall proj root fuel e,
+  consistent_marks proj -> root < length proj -> load_root loader_shape proj fuel root = Ok e ->
+  forall g, hasns e g = true -> forall x, exp e g x = pubp proj g x.
+Proof. exact exported_iff_public_tied. Qed.
+Print Assumptions exported_iff_public.
+
+(* The root is loaded, loaded files exist, and every namespace value refers to a loaded file. *)
+Theorem namespaces_are_loaded_files : forall proj root fuel e,
+  consistent_marks proj -> root < length proj -> load_root loader_shape proj fuel root = Ok e ->
+  hasns e root = true /\ (forall g, hasns e g = true -> g < length proj) /\
+  (forall f a g, val e f a = Some (VNs g) -> hasns e g = true).
+Proof. exact loaded_tied. Qed.
+Print Assumptions namespaces_are_loaded_files.
+
+(* `a::x` resolves exactly when `a` is bound to the namespace of a file that marks x public
+   (restatement of qualified_visible_iff_public_partial against the public marks, for all projects). *)
+Theorem qualified_visible_iff_public : forall proj root fuel e,
+  consistent_marks proj -> root < length proj -> load_root loader_shape proj fuel root = Ok e ->
+  forall f a x, run_qualified e f a x = Resolved <-> exists g, val e f a = Some (VNs g) /\ pubp proj g x = true.
+Proof. exact qualified_visible_iff_public_tied. Qed.
+Print Assumptions qualified_visible_iff_public.
+
+(* (b) In every loaded file an unqualified name resolves exactly when it is allowed: through `import t`
+   exactly the public items of t, nothing private, nothing re-exported. *)
+Theorem unqualified_imports_exactly_public : forall proj root fuel e,
+  consistent_marks proj -> root < length proj -> load_root loader_shape proj fuel root = Ok e ->
+  forall f, hasns e f = true -> forall x, run_unqualified e f x = Resolved <-> allowed proj f x.
+Proof. exact unqualified_visible_iff_tied. Qed.
+Print Assumptions unqualified_imports_exactly_public.
+
+(* General form of cyclic_imports_complete: whatever the graph, every public item of a file imported
+   without `as` is reachable from every loaded importer ... *)
+Theorem cyclic_imports_complete_general : forall proj root fuel e,
+  consistent_marks proj -> root < length proj -> load_root loader_shape proj fuel root = Ok e ->
+  forall f g x, hasns e f = true -> import_plain proj f g -> pubp proj g x = true -> run_unqualified e f x = Resolved.
+Proof. exact unqualified_import_complete_tied. Qed.
+Print Assumptions cyclic_imports_complete_general.
+
+(* ... and a name that is neither prelude, nor declared by f, nor an alias of f, resolves only if some file
+   that f itself imports without `as` marks it public (no re-export, no private item). *)
+Theorem unqualified_import_sound : forall proj root fuel e,
+  consistent_marks proj -> root < length proj -> load_root loader_shape proj fuel root = Ok e ->
+  forall f x, hasns e f = true -> run_unqualified e f x = Resolved ->
+  ~ In x prelude_names -> ~ declared proj f x -> (forall t, ~ import_alias proj f t x) ->
+  exists g, import_plain proj f g /\ pubp proj g x = true.
+Proof. exact unqualified_import_sound_tied. Qed.
+Print Assumptions unqualified_import_sound.
+
+(* Non-vacuity: a two-file project with a cycle, a self-import, both import forms, public and private
+   functions and enums satisfies consistent_marks, loads, and resolves as the theorems say. *)
+Example general_hypotheses_satisfiable :
+  consistent_marks ex_proj /\ 0 < length ex_proj /\
+  exists e, load_root shape_fixed ex_proj 3 0 = Ok e /\
+    run_unqualified e 0 1 = Resolved /\ run_unqualified e 0 3 = Resolved /\ run_unqualified e 0 2 = Rejected /\
+    run_unqualified e 1 5 = Resolved /\ run_qualified e 1 10 1 = Resolved /\ run_qualified e 1 10 2 = Rejected.
+Proof. split; [exact ex_proj_consistent|]. split; [cbn; auto|]. exact ex_proj_loads. Qed.
+Print Assumptions general_hypotheses_satisfiable.
+
+(* consistent_marks is needed: `public fun f` and `fun f` in one file leave f out of exported_syms. *)
+Example consistent_marks_is_needed :
+  let p := [[IFun 1 Public; IFun 1 Private]] in
+  ~ consistent_marks p /\
+  exists e, load_root shape_fixed p 2 0 = Ok e /\ pubp p 0 1 = true /\ exp e 0 1 = false.
+Proof. exact consistent_marks_needed. Qed.
+Print Assumptions consistent_marks_is_needed.
